@@ -346,3 +346,179 @@ Section WellFormedRequestNoSlash.
     pose proof (serve_complete t req sub rel node Hv) as Hs. rewrite Hc in Hs. exact (Hs L Lr).
   Qed.
 End WellFormedRequestNoSlash.
+
+(** ** C01: the client as sender — an absolute source path is split into the
+    directory to open and the element to request *)
+
+Lemma good_first_not_slash c : good_comp c = true -> exists x l, c = x :: l /\ (x =? slash) = false.
+Proof.
+  intros Hc. unfold good_comp in Hc. apply andb_true_iff in Hc. destruct Hc as [Hn Hv].
+  destruct c as [|x l]; [cbn in Hv; discriminate|]. exists x, l. split; [reflexivity|].
+  cbn [noslash forallb] in Hn. apply andb_true_iff in Hn. destruct Hn as [Hx _]. now apply negb_true_iff in Hx.
+Qed.
+
+Lemma render_from_head p : p <> [] -> Forall (fun c => good_comp c = true) p ->
+  exists x l, render_from p = x :: l /\ (x =? slash) = false.
+Proof.
+  destruct p as [|c r]; [congruence|]. intros _ Hall. inversion Hall as [|? ? Hc Hr]; subst.
+  destruct (good_first_not_slash c Hc) as (x & l & -> & Hx).
+  destruct r as [|c' r'].
+  - exists x, l. split; [reflexivity|exact Hx].
+  - change (render_from ((x :: l) :: c' :: r')) with ((x :: l) ++ [47] ++ render_from (c' :: r')).
+    exists x, (l ++ [47] ++ render_from (c' :: r')). split; [reflexivity|exact Hx].
+Qed.
+
+(** a relative well-formed request "c1/.../ck" *)
+Section RelativeRequest.
+  Variable p0 : path.
+  Hypothesis Hne : p0 <> [].
+  Hypothesis Hgood : Forall (fun c => good_comp c = true) p0.
+  Let req := render_from p0.
+
+  Lemma rel_get_strip : get_strip req = [].
+  Proof.
+    unfold get_strip.
+    destruct (render_from_head p0 Hne Hgood) as (x & l & E & Hx).
+    assert (E1 : list_eqb req [slash] = false).
+    { destruct (list_eqb req [slash]) eqn:Eq; [|reflexivity]. apply list_eqb_eq in Eq. unfold req in Eq.
+      rewrite E in Eq. inversion Eq; subst. cbn in Hx. discriminate. }
+    rewrite E1.
+    assert (E2 : has_suffix_slash req = false).
+    { unfold has_suffix_slash, req.
+      destruct (rev_render_head p0 Hne Hgood) as (y & l' & Er & Hy). rewrite Er. exact Hy. }
+    now rewrite E2.
+  Qed.
+
+  Lemma rel_walk_root : walk_root req = render_from p0.
+  Proof.
+    unfold walk_root, req.
+    destruct (render_from_head p0 Hne Hgood) as (x & l & E & Hx). rewrite E. rewrite Hx. rewrite <- E.
+    unfold path_clean. rewrite E. rewrite Hx. rewrite <- E. cbv zeta.
+    destruct (good_split p0 Hgood) as [Hns Hv]. rewrite split_render by assumption.
+    pose proof (clean_good false p0 [] [] Hv) as Hcg. rewrite !app_nil_r in Hcg. cbn [clean_comps] in Hcg.
+    rewrite rev_involutive in Hcg. rewrite Hcg.
+    rewrite join_is_render.
+    pose proof (render_from_nonempty p0 Hne Hv) as Hnn.
+    destruct (render_from p0); [congruence|reflexivity].
+  Qed.
+
+  Theorem relative_path_named_from_the_root t sub rel node :
+    lookup t p0 = Some sub -> lookup sub rel = Some node ->
+    In (render (p0 ++ rel)) (serve_names t req).
+  Proof.
+    intros L Lr. unfold serve_names. rewrite rel_get_strip. cbn [wire_name].
+    apply in_map.
+    assert (Hc : comps_of (walk_root req) = p0).
+    { rewrite rel_walk_root. unfold comps_of. rewrite render_from_not_dot by assumption.
+      destruct (good_split p0 Hgood) as [Hns _]. now apply split_render. }
+    assert (Hv : valid_path (walk_root req) = true).
+    { rewrite rel_walk_root. unfold valid_path. rewrite render_from_not_dot by assumption. cbn [orb].
+      destruct (good_split p0 Hgood) as [Hns Hv]. rewrite split_render by assumption.
+      apply forallb_forall. intros c Hc'. rewrite Forall_forall in Hv. now apply Hv. }
+    pose proof (serve_complete t req sub rel node Hv) as Hs. rewrite Hc in Hs. exact (Hs L Lr).
+  Qed.
+End RelativeRequest.
+
+(** the request "/" inside an opened directory: everything, by relative path *)
+Lemma root_request_names t rel node : lookup t rel = Some node -> In (render rel) (serve_names t [slash]).
+Proof.
+  intros L. unfold serve_names. change (get_strip [slash]) with (@nil Z). cbn [wire_name].
+  apply in_map.
+  assert (Hv : valid_path (walk_root [slash]) = true) by reflexivity.
+  pose proof (serve_complete t [slash] t rel node Hv) as Hs.
+  change (comps_of (walk_root [slash])) with (@nil name) in Hs. cbn [app lookup] in Hs.
+  exact (Hs eq_refl L).
+Qed.
+
+Section ClientRequest.
+  Variable pre : path.      (* the directory part, possibly empty (a path directly under the root) *)
+  Variable c : name.        (* the last element *)
+  Hypothesis Hpre : Forall (fun c => good_comp c = true) pre.
+  Hypothesis Hc : good_comp c = true.
+  Let p0 := pre ++ [c].
+
+  Lemma p0_good : Forall (fun c => good_comp c = true) p0.
+  Proof. unfold p0. apply Forall_app. split; [exact Hpre|constructor; [exact Hc|constructor]]. Qed.
+  Lemma p0_ne : p0 <> [].
+  Proof. unfold p0. destruct pre; discriminate. Qed.
+
+  Lemma render_p0 : render_from p0 = match pre with [] => c | _ => render_from pre ++ [47] ++ c end.
+  Proof.
+    unfold p0. destruct pre as [|a r] eqn:E; [reflexivity|]. rewrite <- E.
+    rewrite render_from_app by (subst; discriminate). reflexivity.
+  Qed.
+
+  (** without trailing slash: "/pre/c" *)
+  Let req := slash :: render_from p0.
+
+  Lemma client_last : last_comp req = c.
+  Proof.
+    unfold last_comp, req. cbn [split_slash]. rewrite Z.eqb_refl. cbn [rev].
+    destruct (good_split p0 p0_good) as [Hns _]. rewrite (split_render p0 p0_ne Hns).
+    unfold p0. destruct pre as [|a r]; [reflexivity|].
+    change (last ([] :: (a :: r) ++ [c]) []) with (last ((a :: r) ++ [c]) []). apply last_last.
+  Qed.
+
+  Lemma client_not_slash_terminated : has_suffix_slash req = false.
+  Proof.
+    unfold has_suffix_slash, req. cbn [rev].
+    destruct (rev_render_head p0 p0_ne p0_good) as (x & l & E & Hx). rewrite E. cbn [app]. exact Hx.
+  Qed.
+
+  Lemma client_dir : path_dir req = match pre with [] => [slash] | _ => slash :: render_from pre end.
+  Proof.
+    unfold path_dir. rewrite client_last. unfold req. rewrite render_p0.
+    destruct pre as [|a r] eqn:E.
+    - cbn [length]. replace (S (length c) - length c)%nat with 1%nat by lia.
+      destruct (good_first_not_slash c Hc) as (x & l & -> & _). reflexivity.
+    - rewrite <- E in *.
+      assert (Hpne : pre <> []) by (subst; discriminate).
+      replace (slash :: render_from pre ++ [47] ++ c) with ((slash :: render_from pre ++ [47]) ++ c)
+        by (cbn [app]; rewrite <- app_assoc; reflexivity).
+      rewrite app_length. set (hd := slash :: render_from pre ++ [47]).
+      replace (length hd + length c - length c)%nat with (length hd) by lia.
+      rewrite firstn_app, Nat.sub_diag, firstn_all. cbn [firstn]. rewrite app_nil_r.
+      exact (wf_path_clean pre Hpne Hpre).
+  Qed.
+
+  (** "/pre/c" is named c, c/..., whatever pre is: rsync's own naming *)
+  Theorem client_path_is_named_by_its_last_element t cs rel node :
+    lookup t pre = Some (TDir cs) -> lookup (TDir cs) (c :: rel) = Some node ->
+    In (render (c :: rel)) (client_names t req).
+  Proof.
+    intros L Lr. unfold client_names, client_split. rewrite client_not_slash_terminated.
+    rewrite client_dir. unfold path_base. rewrite client_last.
+    assert (Hroot : valid_path (walk_root (match pre with [] => [slash] | _ => slash :: render_from pre end)) = true /\
+                    comps_of (walk_root (match pre with [] => [slash] | _ => slash :: render_from pre end)) = pre).
+    { destruct pre as [|a r] eqn:E; [split; reflexivity|]. rewrite <- E in *.
+      assert (Hpne : pre <> []) by (subst; discriminate).
+      rewrite (wfn_walk_root pre Hpne Hpre).
+      destruct (good_split pre Hpre) as [Hns Hv].
+      split.
+      - unfold valid_path. rewrite render_from_not_dot by assumption. cbn [orb].
+        rewrite split_render by assumption. apply forallb_forall. intros x Hx. rewrite Forall_forall in Hv. now apply Hv.
+      - unfold comps_of. rewrite render_from_not_dot by assumption. now apply split_render. }
+    destruct Hroot as [Hv Hcomps]. rewrite Hv, Hcomps. cbn [negb]. rewrite L.
+    assert (Hgc : Forall (fun x => good_comp x = true) [c]) by (constructor; [exact Hc|constructor]).
+    destruct (lookup (TDir cs) [c]) as [sub|] eqn:Lc.
+    - pose proof (relative_path_named_from_the_root [c] ltac:(discriminate) Hgc (TDir cs) sub rel node Lc) as Hn.
+      cbn [render_from app] in Hn. apply Hn.
+      cbn [lookup] in Lr, Lc |- *. destruct (assoc_name c cs) as [u|]; [|discriminate].
+      destruct rel; cbn [lookup] in Lc; inversion Lc; subst; exact Lr.
+    - exfalso. cbn [lookup] in Lr, Lc. destruct (assoc_name c cs) as [u|]; [|discriminate].
+      cbn [lookup] in Lc. discriminate.
+  Qed.
+
+  (** with trailing slash: "/pre/c/" — the directory is opened and "/" requested inside it *)
+  Theorem client_directory_with_a_slash_lands_its_contents_directly t cs rel node :
+    lookup t p0 = Some (TDir cs) -> lookup (TDir cs) rel = Some node ->
+    In (render rel) (client_names t (req ++ [slash])).
+  Proof.
+    intros L Lr. unfold client_names, client_split.
+    assert (Hs : has_suffix_slash (req ++ [slash]) = true).
+    { unfold has_suffix_slash. rewrite rev_app_distr. reflexivity. }
+    rewrite Hs. unfold req. change ((slash :: render_from p0) ++ [slash]) with (slash :: render_from p0 ++ [slash]).
+    rewrite (wf_valid p0 p0_ne p0_good). cbn [negb]. rewrite (wf_comps p0 p0_ne p0_good). rewrite L.
+    now apply root_request_names with (node := node).
+  Qed.
+End ClientRequest.
